@@ -14,7 +14,9 @@ search oracle: an independent Python implementation of Spec/IRArith.
 import ast
 import copy
 import os
+import sys
 
+sys.path.insert(0, os.path.dirname(os.path.dirname(os.path.abspath(__file__))))   # tools/ (for the replay CLI)
 from vlib import OkV, Diag, Internal, to_term, TieBroken, ensure_repo_on_path, REPO
 import py2coq
 
@@ -376,8 +378,10 @@ def check_outcome(ctx, kind, tree, out, expect, name, detail):
     """compare what the pass did (`out`) with the reference; report a violation.  Returns True if ok.
     expect: ('value', v) must fold to v or stay; ('any',) may stay or fold to something in range"""
     bad = None
+    cat = ''
     if out is Internal:
         bad = 'the pass raised an exception'
+        cat = 'raises'
     else:
         o = out.v
         bits, signed = ty_bs(name)
@@ -391,7 +395,8 @@ def check_outcome(ctx, kind, tree, out, expect, name, detail):
         elif o[0] == 2:
             bad = 'unexpected re-association'
     if bad:
-        ctx.violation({'fn': kind, 'args': detail, 'what': bad, 'expected': repr(expect),
+        cat = cat or ('wrong_value' if bad.startswith('folded to') else 'range_or_type')
+        ctx.violation({'fn': kind, 'key': kind + ':' + cat, 'args': detail, 'what': bad, 'expected': repr(expect),
                        'actual': 'exception' if out is Internal else list(out.v), 'tree': repr(tree),
                        'how_to_replay': "VERIF_REPO=%s /venv/bin/python /verif/tools/props/c38.py replay \"%s\"" % (REPO, repr(tree))})
     return bad is None
@@ -466,7 +471,8 @@ def oracle_sweep(ctx, deep):
                                             yv, op1, c1, op2, c2, want, got)
                                         break
                         if bad:
-                            ctx.violation({'fn': 'chain:' + op1 + op2, 'args': [name, c1, c2], 'what': bad, 'tree': repr(tree),
+                            ctx.violation({'fn': 'chain:' + op1 + op2, 'key': 'chain:' + op1 + op2 + ':' + bad.split()[0] + bad.split()[1],
+                                           'args': [name, c1, c2], 'what': bad, 'tree': repr(tree),
                                            'actual': 'exception' if out is Internal else list(out.v),
                                            'how_to_replay': "VERIF_REPO=%s /venv/bin/python /verif/tools/props/c38.py replay \"%s\"" % (REPO, repr(tree))})
     # 4. chain rule on f64: re-association must not change the value (python float = IEEE double)
@@ -776,7 +782,6 @@ MANIFEST = {
 
 
 if __name__ == '__main__':
-    import sys
     if len(sys.argv) >= 3 and sys.argv[1] == 'replay':
         tree = ast.literal_eval(sys.argv[2])
         print('tree   :', tree)
